@@ -43,10 +43,10 @@ ASSUMPTIONS = [
     "Vector has no print_ method; its entry points are str, repr, to_string",
 ]
 BOUND = {
-    "quick": "vectors: all sequences of length 0..3 over the 'quick' rendering alphabet (<= 8 values) of 14 dtypes; frames: all single-column frames of 0..2 rows over the same alphabets plus fixed 3-row columns, all ordered pairs of 10 column names, all ordered pairs of a 10-column menu at 0/2/3 rows, all triples of a 5-column menu at 3 rows; GeoJSON: 0..2 features x {null, Point, Polygon} x 3 property sets x {constructor, read from file}; ListOfDicts: all lists of 0..3 items over 8 items; configurations: full product (max_rows {None,1,2} x max_width {None,1,10,40} x truncate_width {None,1,2,5} | max_elements {None,0,1} | max_items {None,0,1}) x precision {0,2,6} x separator {'', ','} x PRINT_MAX_* {default, 2} x terminal {20, 80} x entry points",
-    "thorough": "vectors: all sequences of length 0..3 over the 'thorough' alphabets (<= 12 values); frames: all single-column frames of 0..3 rows over the thorough alphabets, all ordered pairs of 12 column names, all ordered pairs and triples of the 10-column menu at 0..3 rows; GeoJSON: 0..3 features; ListOfDicts: all lists of 0..3 items over 11 items; the same full configuration product",
+    "quick": "vectors: all sequences of length 0..3 over the 'quick' rendering alphabet (<= 8 values) of 14 dtypes; frames: all single-column frames of 0..2 rows over the same alphabets plus fixed 3-row columns, all ordered pairs of 10 column names, all ordered pairs of a 10-column menu at 0 and 3 rows, all triples of a 5-column menu at 3 rows; GeoJSON: 0..2 features x {null, Point, Polygon} x 3 property sets x {constructor, read from file}; ListOfDicts: all lists of 0..3 items over 8 items; configurations: full product (max_rows {None,1,2} x max_width {None,1,10,40} x truncate_width {None,1,2,5} | max_elements {None,0,1} | max_items {None,0,1}) x precision {0,2,6} x separator {'', ','} x PRINT_MAX_* {default, 2} x terminal {20, 80} x entry points",
+    "thorough": "vectors: all sequences of length 0..3 over the 'thorough' alphabets (<= 12 values); frames: all single-column frames of 0..3 rows over the thorough alphabets, all ordered pairs of 12 column names, all ordered pairs of the 10-column menu at 0..3 rows and all triples at 0/2/3 rows; GeoJSON: 0..3 features; ListOfDicts: all lists of 0..3 items over 11 items; the same full configuration product",
 }
-TIME_CAP = {"quick": 240, "thorough": 3000}
+TIME_CAP = {"quick": 600, "thorough": 3000}
 
 E_ACUTE = "é"          # combining: two code points, display width 1
 LONG = "a" * 50
@@ -67,7 +67,7 @@ ALPHA = {
     "b1": {"quick": [False, True], "thorough": [False, True]},
     "str": {"quick": [None, "a", "日本", E_ACUTE, "l1\nl2", LONG, 'q"r', "l1\n"],
             "thorough": [None, "a", "日本", E_ACUTE, "l1\nl2", LONG, 'q"r', "l1\n", " ", WIDE_LONG, "\nl2", "l1\r\nl2"]},
-    "U": {"quick": [None, "a", "日本"], "thorough": [None, "a", "日本", "l1\nl2"]},
+    "U": {"quick": [None, "a", "日本", "l1\nl2"], "thorough": [None, "a", "日本", "l1\nl2", LONG]},
     "D": {"quick": [None, "1970-01-01", "9999-12-31", "0001-01-01"],
           "thorough": [None, "1970-01-01", "9999-12-31", "0001-01-01", "2020-02-29"]},
     "s": {"quick": [None, "2020-02-29T23:59:59"], "thorough": [None, "2020-02-29T23:59:59", "1969-12-31T23:59:59"]},
@@ -90,7 +90,7 @@ FIXED3 = {
     "u1": [[0, 200, 0]],
     "b1": [[False, True, True]],
     "str": [[None, "日本", E_ACUTE], ["l1\nl2", LONG, 'q"r'], ["a", "l1\n", "日本"], [LONG, None, "l1\nl2"]],
-    "U": [[None, "a", "日本"]],
+    "U": [[None, "a", "日本"], ["l1\nl2", None, "a"]],
     "D": [[None, "9999-12-31", "0001-01-01"], ["1970-01-01", None, "9999-12-31"]],
     "s": [[None, "2020-02-29T23:59:59", None]],
     "ms": [[None, "2020-02-29T23:59:59.999", None]],
@@ -359,7 +359,7 @@ def frame_descs(tier):
         return {"cls": "DataFrame", "cols": cols}
 
     all_menu = range(len(MENU))
-    pair_rows = [0, 2, 3] if tier == "quick" else [0, 1, 2, 3]
+    pair_rows = [0, 3] if tier == "quick" else [0, 1, 2, 3]
     for r in pair_rows:
         for idx in itertools.product(all_menu, repeat=2):
             out.append(pick(idx, r))
@@ -367,7 +367,7 @@ def frame_descs(tier):
         for idx in itertools.product(QUICK_TRIPLE_MENU, repeat=3):
             out.append(pick(idx, 3))
     else:
-        for r in [0, 1, 2, 3]:
+        for r in [0, 2, 3]:
             for idx in itertools.product(all_menu, repeat=3):
                 out.append(pick(idx, r))
     return out
@@ -458,16 +458,20 @@ def observe(obj, cls, cfg):
     return "ok", text
 
 
-def expectations(obj, desc, cfg):
-    """What a frame rendering must show, derived from the description and the configuration alone."""
+def frame_facts(obj):
+    """Names, dtype labels and row count of a frame, read without dataiter's own helpers."""
     arrays = [np.asarray(dict.__getitem__(obj, name)) for name in dict.keys(obj)]
     names = list(dict.keys(obj))
     labels = [R.dtype_label(a) for a in arrays]
     nrow = len(arrays[0]) if arrays else 0
+    return names, labels, nrow
+
+
+def row_limit(cfg):
     limit = (cfg.get("args") or {}).get("max_rows")
     if limit is None:
         limit = cfg["pmax"] if cfg["pmax"] is not None else DEFAULTS["PRINT_MAX_ROWS"]
-    return names, labels, nrow, min(nrow, limit)
+    return limit
 
 
 def check_case(case, rec):
@@ -489,10 +493,12 @@ def check_case(case, rec):
 
     obj, before = fresh()
     rec.state(okey)
+    outcomes_seen = rec.__dict__.setdefault("_c20_outcomes_seen", set())
     is_frame = cls in ("DataFrame", "GeoJSON")
     if is_frame:
         if len(dict.keys(obj)) != ncol or any(len(c) != nrow for c in dict.values(obj)):
             raise RuntimeError(f"harness built a frame of unexpected shape from {desc!r}")
+        names, labels, n = frame_facts(obj)
     for cfg in case["cfgs"]:
         ckey = json.dumps(cfg, sort_keys=True)
         departs = bool(cfg.get("args")) or cfg["prec"] != 6 or cfg["ksep"] != "" or cfg["pmax"] is not None or cfg["term"] != 80
@@ -508,8 +514,7 @@ def check_case(case, rec):
         elif not isinstance(text, str):
             problems.append(("not-text", f"rendering returned {type(text).__name__}"))
         elif is_frame:
-            names, labels, n, shown = expectations(obj, desc, cfg)
-            problems += R.check_frame_text(text, names, labels, n, shown)
+            problems += R.check_frame_text(text, names, labels, n, min(n, row_limit(cfg)))
         if after != before:
             problems.append(("object-changed", f"snapshot before {before!r} after {after!r}"))
         for name, value in DEFAULTS.items():
@@ -535,7 +540,10 @@ def check_case(case, rec):
             continue
         masked = ADDR.sub("0x", text)
         rec.state(("text", masked))
-        rec.outcome((cls, masked))
+        ohash = hash((cls, masked))
+        if ohash not in outcomes_seen:  # the recorder keeps one digest per call; record each outcome once per shard
+            outcomes_seen.add(ohash)
+            rec.outcome((cls, masked))
     rec.sample({"obj": desc, "cfgs": case["cfgs"][:1] + case["cfgs"][-1:]})
 
 
@@ -549,4 +557,15 @@ def classify(v):
             return "geojson-to_string-lacks-truncate_width"
         if "'NoneType' object is not subscriptable" in detail and "null" in desc["geometry"]:
             return "geojson-null-geometry"
+    if cls == "GeoJSON" and clause == "dtype-label" and desc["source"] == "read" and not desc["geometry"]:
+        return "geojson-read-zero-features-geometry-dtype"
+    if cls in ("DataFrame", "GeoJSON") and clause in ("block-width", "data-rows"):
+        shown = row_limit(cfg)
+        cols = desc["cols"] if cls == "DataFrame" else [[name, "str", vals] for name, vals in desc["props"]]
+        cells = [(kind, t) for name, kind, toks in cols for t in toks[:shown] if isinstance(t, str) and kind in ("str", "U")]
+        # a cell whose only line break is at its end: splitlines() gives one line, so it is not cut
+        if any(kind == "str" and len(t.splitlines()) == 1 and t != t.splitlines()[0] for kind, t in cells):
+            return "string-cell-ending-in-line-break"
+        if any(kind == "U" and len(t.splitlines()) > 1 for kind, t in cells):
+            return "fixed-width-string-cell-multi-line"
     return None
